@@ -711,15 +711,68 @@ func c16(r *Report) {
 			r.Touch(pred)
 			okPol := true
 			nret := 0
-			for _, ret := range returns(pred) {
-				k, isK := constBool(ret.Results[0])
-				if !isK {
-					okPol = false
-					continue
+			// `return helper(...)` / `return !helper(...)`: judge the helper, with the polarity flipped per `!`
+			want := oc.hit
+			for hops := 0; hops < 3; hops++ {
+				rets := returns(pred)
+				if len(rets) != 1 {
+					break
 				}
+				v := rets[0].Results[0]
+				flip := false
+				for {
+					u, isU := v.(*ssa.UnOp)
+					if !isU || u.Op != token.NOT {
+						break
+					}
+					v, flip = u.X, !flip
+				}
+				c, isC := v.(*ssa.Call)
+				if !isC || c.Call.StaticCallee() == nil || c.Call.StaticCallee().Blocks == nil || !strings.HasPrefix(c.Call.StaticCallee().Pkg.Pkg.Path(), M) {
+					break
+				}
+				pred = c.Call.StaticCallee()
+				if flip {
+					want = !want
+				}
+				r.Touch(pred)
+			}
+			// the constant answers and the blocks they are decided in: a plain `return true`, or the
+			// inputs of a merged result (`return !found` after an inlined helper)
+			type answer struct {
+				k  bool
+				at *ssa.BasicBlock
+			}
+			var answers []answer
+			for _, ret := range returns(pred) {
+				v := ret.Results[0]
+				flip := false
+				for {
+					u, isU := v.(*ssa.UnOp)
+					if !isU || u.Op != token.NOT {
+						break
+					}
+					v, flip = u.X, !flip
+				}
+				if k, isK := constBool(v); isK {
+					answers = append(answers, answer{k != flip, ret.Block()})
+				} else if ph, isPhi := v.(*ssa.Phi); isPhi {
+					for i, e := range ph.Edges {
+						if k, isK := constBool(e); isK {
+							answers = append(answers, answer{k != flip, ph.Block().Preds[i]})
+						} else {
+							okPol = false
+						}
+					}
+				} else {
+					okPol = false
+				}
+			}
+			for _, an := range answers {
+				k := an.k
 				nret++
 				onMatch := false
-				for _, ce := range ctrlEdges(ret.Block()) {
+				for _, ce := range ctrlEdges(an.at) {
 					if isCallValue(ce.If.Cond, "strings.HasPrefix") && ce.Taken {
 						onMatch = true
 					}
@@ -727,7 +780,7 @@ func c16(r *Report) {
 						onMatch = true
 					}
 				}
-				if onMatch != (k == oc.hit) {
+				if onMatch != (k == want) {
 					okPol = false
 				}
 			}
